@@ -659,6 +659,8 @@ func main() {
 			h.replayArgs(rp.Case)
 		} else if rp.Level == "abs" {
 			h.replayAbs(rp.Case)
+		} else if rp.Level == "root" {
+			h.replayRoot(rp.Case)
 		} else if rp.Level == "combinator" {
 			var cc CombCase
 			if err := json.Unmarshal(rp.Case, &cc); err != nil {
@@ -723,6 +725,7 @@ func main() {
 	h.exhaustive()
 	h.argsFamily()
 	h.absFamily()
+	h.rootFamily()
 	h.subscriptionEvents()
 	h.wide()
 	h.random()
